@@ -37,7 +37,10 @@ def handleC03i (ts : List String) : Option (List String) :=
   | "c03" :: r =>
     -- Impl | Spec (documents, `!Rejected`, or `?nospec`) | the reasons the case lies outside D
     match c03Parse r with
-    | some (db, coll, p) =>
+    | some (db, coll, p0) =>
+      -- `Collection.aggregate` normalises the datetimes of the pipeline first: the stages — of
+      -- the code and of the oracle alike — see the pipeline as the server would be sent it
+      let p := normPipeline p0
       let docs := db.get coll
       some (showR showVals (c03Impl db coll p) ++ ["|"] ++
         (match specPipelineV p docs with
@@ -47,7 +50,7 @@ def handleC03i (ts : List String) : Option (List String) :=
     | none => some ["?parse"]
   | "c03i" :: r =>
     match c03Parse r with
-    | some (db, coll, p) => some (showR showVals (c03Impl db coll p))
+    | some (db, coll, p) => some (showR showVals (c03Impl db coll (normPipeline p)))
     | none => some ["?parse"]
   | _ => none
 
